@@ -73,7 +73,7 @@ pub fn run(ctx: &Ctx, rec: &mut Rec) {
                 scalars.push(z.clone());
             }
         }
-        for _ in 0..ctx.scale(150, 10_000) {
+        for _ in 0..ctx.scale(400, 10_000) {
             scalars.push((rand_below(&mut rng, &f.p), "random"));
         }
         for (i, (k, class)) in scalars.iter().enumerate() {
@@ -122,10 +122,105 @@ pub fn run(ctx: &Ctx, rec: &mut Rec) {
             }
         }
     });
+    // hostile point encodings: both engines must give the same verdict (and the same point)
+    rec.declare_form("hostile encodings");
+    for cl in ["coordinate + p", "coordinate = p", "flag bits", "bit flip", "x+1 (off curve / other point)", "random bytes", "truncated", "on curve outside subgroup"] {
+        rec.declare_class(&format!("enc:{cl}"));
+    }
+    par(rec, |w, n, rec| {
+        let mut rng = rng_for(ctx.seed, P, w, 7);
+        let pmod = &ctx.fp.p;
+        let reps = ctx.scale(120, 4000);
+        for rep in 0..reps {
+            if rep % n != w {
+                continue;
+            }
+            let k = if rep < 4 { b(rep as u64) } else { rand_below(&mut rng, &f.p) };
+            let kr = ref_scalar(&k);
+            let p1 = (<Refe as Pairing>::G1::generator() * kr).into_affine();
+            let p2 = (<Refe as Pairing>::G2::generator() * kr).into_affine();
+            let mut cases: Vec<(&'static str, bool, Compress, Vec<u8>)> = Vec::new(); // (class, is_g2, mode, bytes)
+            for (is_g2, c, bytes) in [(false, Compress::Yes, ser(&p1, Compress::Yes)), (false, Compress::No, ser(&p1, Compress::No)), (true, Compress::Yes, ser(&p2, Compress::Yes)), (true, Compress::No, ser(&p2, Compress::No))] {
+                let slots = bytes.len() / 48;
+                for slot in 0..slots {
+                    // value in the slot (flag bits live in the top bits of the last byte of the encoding)
+                    let raw = crate::model::from_le(&bytes[48 * slot..48 * slot + 48]);
+                    let flags = if slot == slots - 1 { &raw >> 382u32 } else { b(0) };
+                    let val = &raw - (&flags << 382u32);
+                    for (class, nv) in [("coordinate + p", &val + pmod), ("coordinate = p", pmod.clone()), ("x+1 (off curve / other point)", (&val + b(1)) % pmod)] {
+                        if nv.bits() > 382 {
+                            continue;
+                        }
+                        let mut m = bytes.clone();
+                        m[48 * slot..48 * slot + 48].copy_from_slice(&crate::model::to_le(&(&nv + (&flags << 382u32)), 48));
+                        cases.push((class, is_g2, c, m));
+                    }
+                }
+                for bit in [7usize, 6, 5] {
+                    let mut m = bytes.clone();
+                    let last = m.len() - 1;
+                    m[last] ^= 1 << bit;
+                    cases.push(("flag bits", is_g2, c, m));
+                }
+                let mut m = bytes.clone();
+                let pos = rand_range(&mut rng, m.len() * 8);
+                m[pos / 8] ^= 1 << (pos % 8);
+                cases.push(("bit flip", is_g2, c, m));
+                cases.push(("random bytes", is_g2, c, crate::zoo::rand_bytes(&mut rng, bytes.len())));
+                cases.push(("truncated", is_g2, c, bytes[..bytes.len() - 1 - rand_range(&mut rng, 5)].to_vec()));
+            }
+            // a G1 point on the curve but (almost surely) outside the prime-order subgroup
+            {
+                use ark_ec::short_weierstrass::Affine as SW;
+                type RefG1Cfg = <<Refe as Pairing>::G1Affine as AffineRepr>::Config;
+                loop {
+                    let x = <Refe as Pairing>::BaseField::rand(&mut rng);
+                    if let Some(pt) = SW::<RefG1Cfg>::get_point_from_x_unchecked(x, rep % 2 == 0) {
+                        cases.push(("on curve outside subgroup", false, Compress::Yes, ser(&pt, Compress::Yes)));
+                        cases.push(("on curve outside subgroup", false, Compress::No, ser(&pt, Compress::No)));
+                        break;
+                    }
+                }
+            }
+            for (class, is_g2, c, bytes) in cases {
+                rec.form("hostile encodings");
+                rec.class(&format!("enc:{class}"));
+                rec.eval(&("hostile", bytes.clone(), is_g2), false);
+                let b2 = bytes.clone();
+                let res = guarded(|| {
+                    if is_g2 {
+                        let o: Result<<Ours as Pairing>::G2Affine, _> = de(&b2, c);
+                        let r: Result<<Refe as Pairing>::G2Affine, _> = de(&b2, c);
+                        (o.map(|p| ser(&p, Compress::No)).ok(), r.map(|p| ser(&p, Compress::No)).ok())
+                    } else {
+                        let o: Result<<Ours as Pairing>::G1Affine, _> = de(&b2, c);
+                        let r: Result<<Refe as Pairing>::G1Affine, _> = de(&b2, c);
+                        (o.map(|p| ser(&p, Compress::No)).ok(), r.map(|p| ser(&p, Compress::No)).ok())
+                    }
+                });
+                match res {
+                    Err(pn) => rec.violation(format!("{P}:hostile-encoding:panic"), format!("deserialising a {class} encoding panicked: {pn}"), json!({"bytes": hx(&bytes)})),
+                    Ok((o, r)) => {
+                        if o.is_some() {
+                            rec.count("hostile encodings accepted by both", 1);
+                        }
+                        if o != r {
+                            let kind = match (&o, &r) {
+                                (Some(_), None) => "crate-accepts-reference-rejects",
+                                (None, Some(_)) => "crate-rejects-reference-accepts",
+                                _ => "different-point",
+                            };
+                            rec.violation(format!("{P}:hostile-encoding:{kind}:{class}"), format!("{} encoding ({class}, {}): crate engine {} / reference engine {}", if is_g2 { "G2" } else { "G1" }, if matches!(c, Compress::Yes) { "compressed" } else { "uncompressed" }, if o.is_some() { "accepts" } else { "rejects" }, if r.is_some() { "accepts" } else { "rejects" }), json!({"bytes": hx(&bytes), "group": if is_g2 { "G2" } else { "G1" }}));
+                        }
+                    }
+                }
+            }
+        }
+    });
     // pairings
     par(rec, |w, n, rec| {
         let mut rng = rng_for(ctx.seed, P, w, 2);
-        let reps = ctx.scale(96, 6000);
+        let reps = ctx.scale(320, 6000);
         for rep in 0..reps {
             if rep % n != w {
                 continue;
@@ -182,7 +277,7 @@ pub fn run(ctx: &Ctx, rec: &mut Rec) {
     // extension tower: Frobenius maps and arithmetic on random Fp12 elements vs the reference tower
     par(rec, |w, n, rec| {
         let mut rng = rng_for(ctx.seed, P, w, 3);
-        let reps = ctx.scale(64, 4000);
+        let reps = ctx.scale(256, 4000);
         for rep in 0..reps {
             if rep % n != w {
                 continue;
